@@ -86,3 +86,101 @@ Proof.
   vm_compute (FrontendReq_SET_PROTOCOL_FEATURES =? _). cbn match.
   rewrite extract_u64 by assumption. reflexivity.
 Qed.
+
+(* ---- further operations ---- *)
+Lemma vring_addr_write_length v : List.length (VhostUserVringAddr_write v) = 40%nat.
+Proof. unfold VhostUserVringAddr_write. offs. len. Qed.
+
+Lemma extract_vring_addr code fl v :
+  req_flags_ok fl ->
+  VhostUserVringAddr_index v < 2 ^ 32 -> VhostUserVringAddr_flags v < 2 ^ 32 -> VhostUserVringAddr_descriptor v < 2 ^ 64 ->
+  VhostUserVringAddr_used v < 2 ^ 64 -> VhostUserVringAddr_available v < 2 ^ 64 -> VhostUserVringAddr_log v < 2 ^ 64 ->
+  VhostUserVringAddr_is_valid v = true ->
+  extract (VhostUserMsgHeader_new R code fl 40) 40 (VhostUserVringAddr_write v) VhostUserVringAddr_layout
+          VhostUserVringAddr_decode VhostUserVringAddr_is_valid = ROk v.
+Proof.
+  intros Hfl H1 H2 H3 H4 H5 H6 Hv. unfold extract.
+  assert (Hc : check_size (VhostUserMsgHeader_new R code fl 40) 40 (sizeof VhostUserVringAddr_layout) = ROk tt)
+    by (destruct Hfl as [-> | ->]; vm_compute; reflexivity).
+  rewrite Hc. unfold VhostUserVringAddr_decode. rewrite vring_addr_write_length.
+  change (Nat.eqb 40 (fty_size VhostUserVringAddr_layout)) with true. cbv iota.
+  rewrite vring_addr_roundtrip by assumption. rewrite Hv. reflexivity.
+Qed.
+
+(* SET_VRING_ADDR: the six values the caller gave, for every valid address set (flags 0 or LOG) *)
+Theorem set_vring_addr_end_to_end cfg s o idx flags d u av lg fl :
+  idx < 2 ^ 32 -> flags < 2 -> d < 2 ^ 64 -> u < 2 ^ 64 -> av < 2 ^ 64 -> lg < 2 ^ 64 -> req_flags_ok fl ->
+  let v := {| VhostUserVringAddr_index := idx; VhostUserVringAddr_flags := flags; VhostUserVringAddr_descriptor := d;
+              VhostUserVringAddr_used := u; VhostUserVringAddr_available := av; VhostUserVringAddr_log := lg |} in
+  VhostUserVringAddr_is_valid v = true ->
+  o_calls (snd (dispatch cfg s o (VhostUserMsgHeader_new R FrontendReq_SET_VRING_ADDR fl 40) None 40 (VhostUserVringAddr_write v)))
+  = [call "set_vring_addr" [VN idx; VN flags; VN d; VN u; VN av; VN lg]].
+Proof.
+  intros Hi Hf Hd Hu Ha Hl Hfl v Hv. unfold dispatch.
+  change (VhostUserMsgHeader_request (VhostUserMsgHeader_new R FrontendReq_SET_VRING_ADDR fl 40)) with FrontendReq_SET_VRING_ADDR.
+  vm_compute (FrontendReq_SET_VRING_ADDR =? _). cbn match.
+  rewrite extract_vring_addr; try assumption; try (subst v; cbn [VhostUserVringAddr_index VhostUserVringAddr_flags VhostUserVringAddr_descriptor VhostUserVringAddr_used VhostUserVringAddr_available VhostUserVringAddr_log]; try assumption; lia).
+  subst v. cbn [VhostUserVringAddr_index VhostUserVringAddr_flags VhostUserVringAddr_descriptor VhostUserVringAddr_used VhostUserVringAddr_available VhostUserVringAddr_log].
+  assert (Hfb : flags_from_bits 32 VhostUserVringAddrFlags_all flags = Some flags).
+  { assert (flags = 0 \/ flags = 1) as [-> | ->] by lia; reflexivity. }
+  rewrite Hfb. reflexivity.
+Qed.
+
+(* GET_VRING_BASE: the handler is asked for the caller's ring *)
+Theorem get_vring_base_end_to_end cfg s o idx fl :
+  idx < 2 ^ 32 -> req_flags_ok fl ->
+  o_calls (snd (dispatch cfg s o (VhostUserMsgHeader_new R FrontendReq_GET_VRING_BASE fl 8) None 8
+                         (VhostUserVringState_write {| VhostUserVringState_index := idx; VhostUserVringState_num := 0 |})))
+  = [call "get_vring_base" [VN idx]].
+Proof.
+  intros Hi Hfl. unfold dispatch.
+  change (VhostUserMsgHeader_request (VhostUserMsgHeader_new R FrontendReq_GET_VRING_BASE fl 8)) with FrontendReq_GET_VRING_BASE.
+  vm_compute (FrontendReq_GET_VRING_BASE =? _). cbn match.
+  rewrite extract_vring_state by (try assumption; cbn; lia).
+  cbn [VhostUserVringState_index]. destruct (o =? OUT_OK); reflexivity.
+Qed.
+
+(* SET_VRING_ENABLE once the driver acknowledged PROTOCOL_FEATURES *)
+Theorem set_vring_enable_end_to_end cfg s o idx en fl :
+  idx < 2 ^ 32 -> en < 2 -> req_flags_ok fl ->
+  check_virtio s VhostUserVirtioFeatures_PROTOCOL_FEATURES = ROk tt ->
+  o_calls (snd (dispatch cfg s o (VhostUserMsgHeader_new R FrontendReq_SET_VRING_ENABLE fl 8) None 8
+                         (VhostUserVringState_write {| VhostUserVringState_index := idx; VhostUserVringState_num := en |})))
+  = [call "set_vring_enable" [VN idx; VN en]].
+Proof.
+  intros Hi He Hfl Hg. unfold dispatch.
+  change (VhostUserMsgHeader_request (VhostUserMsgHeader_new R FrontendReq_SET_VRING_ENABLE fl 8)) with FrontendReq_SET_VRING_ENABLE.
+  vm_compute (FrontendReq_SET_VRING_ENABLE =? _). cbn match.
+  rewrite extract_vring_state by (try assumption; cbn; lia).
+  rewrite Hg. cbn [VhostUserVringState_index VhostUserVringState_num].
+  assert (en = 0 \/ en = 1) as [-> | ->] by lia; reflexivity.
+Qed.
+
+(* SET_VRING_CALL / KICK / ERR with a descriptor: ring index and that very descriptor *)
+Theorem set_vring_fd_end_to_end cfg s o code name idx f fl :
+  (code = FrontendReq_SET_VRING_CALL /\ name = "set_vring_call") \/ (code = FrontendReq_SET_VRING_KICK /\ name = "set_vring_kick")
+  \/ (code = FrontendReq_SET_VRING_ERR /\ name = "set_vring_err") ->
+  idx < 256 -> req_flags_ok fl ->
+  o_calls (snd (dispatch cfg s o (VhostUserMsgHeader_new R code fl 8) (Some [f]) 8 (VhostUserU64_write {| VhostUserU64_value := idx |})))
+  = [call name [VN idx; vfds [f]]].
+Proof.
+  intros Hc Hi Hfl.
+  assert (Hv : vring_fd_request (VhostUserU64_write {| VhostUserU64_value := idx |}) (Some [f]) = ROk (idx, Some f)).
+  { unfold vring_fd_request. rewrite u64_body_roundtrip by (cbn; lia). cbn [VhostUserU64_value take_single].
+    assert (Hl : N.land idx 256 = 0).
+    { apply N.bits_inj_0. intros n. rewrite N.land_spec.
+      destruct (N.eq_dec n 8) as [->|Hn].
+      - assert (Hb : N.testbit idx 8 = false) by (apply N.bits_above_log2; destruct (N.eq_dec idx 0) as [->|Hz]; [reflexivity|]; apply N.log2_lt_pow2; lia).
+        rewrite Hb. reflexivity.
+      - change 256 with (2 ^ 8). rewrite N.pow2_bits_false by congruence. apply Bool.andb_false_r. }
+    rewrite Hl. cbn [N.eqb andb orb negb o_is_none o_is_some]. unfold cast. rewrite N.mod_small by lia. reflexivity. }
+  unfold dispatch.
+  destruct Hc as [[-> ->] | [[-> ->] | [-> ->]]];
+  match goal with |- context [VhostUserMsgHeader_request (VhostUserMsgHeader_new R ?c fl 8)] =>
+    change (VhostUserMsgHeader_request (VhostUserMsgHeader_new R c fl 8)) with c end;
+  repeat match goal with |- context [?a =? ?b] => let v := eval vm_compute in (a =? b) in change (a =? b) with v end;
+  cbn match; cbn [orb];
+  (assert (Hs : forall c, check_size (VhostUserMsgHeader_new R c fl 8) 8 (sizeof VhostUserU64_layout) = ROk tt)
+     by (intros c; destruct Hfl as [-> | ->]; reflexivity));
+  rewrite Hs, Hv; reflexivity.
+Qed.
